@@ -148,3 +148,119 @@ def parts_of(name):
         if e not in parts:
             parts.append(e)
     return parts
+
+
+# ---------------------------------------------------------------------------------------------
+# Tables parsed at check time from sources that are NOT the code under test
+# ---------------------------------------------------------------------------------------------
+def ref_dbd_table():
+    """Per double-beta isotope from the reference's GENBBsub: Qbb, Zdbb, Adbb, EK, levels
+    {ilevel: keV}, spin {ilevel: 0|2}, and the quadruple-beta override (Qbb, Zdbb) if any."""
+    L = ref_lines()
+    start = next(i for i, l in enumerate(L) if re.match(r"^\s+subroutine GENBBsub\(", l))
+    end = next(i for i in range(start, len(L)) if re.match(r"^\s+if\(i2bbs\.eq\.2\) then", L[i]) and i > start + 500)
+    # join continuation lines, drop comments
+    stm = []
+    for l in L[start:end]:
+        if l[:1] in "cC*!" or not l.strip():
+            continue
+        if re.match(r"^     \S", l) and not re.match(r"^     \s", l):
+            stm[-1] += l[6:].strip()
+        else:
+            stm.append(l.strip())
+    table = {}
+    cur = None
+    in4b = False
+    for s in stm:
+        s = s.replace(" ", "")
+        m = re.match(r"chnuclide='(\w+)'", s)
+        if m:
+            cur = table.setdefault(m.group(1), {"levels": {}, "spin": {}, "q4b": None})
+            in4b = False
+            continue
+        if cur is None:
+            continue
+        if s.startswith("if(modebb.eq.20)then"):
+            in4b = True
+            cur["q4b"] = {}
+            continue
+        if in4b:
+            if s.startswith("endif"):
+                in4b = False
+                continue
+            m = re.match(r"(Qbb|Zdbb)=([-0-9.]+)", s)
+            if m:
+                cur["q4b"][m.group(1)] = float(m.group(2))
+            continue
+        m = re.match(r"(Qbb|Zdbb|Adbb|EK)=([-0-9.]+)", s)
+        if m and m.group(1) not in cur:
+            cur[m.group(1)] = float(m.group(2))
+            continue
+        m = re.match(r"if\(ilevel\.eq\.(\d+)\)levelE=(\d+)", s)
+        if m:
+            cur["levels"][int(m.group(1))] = int(m.group(2))
+            continue
+        if s.startswith("levelE="):
+            cur["levels"][0] = int(s.split("=")[1])
+            continue
+        m = re.match(r"if\(ilevel\.ge\.(\d+)\.and\.ilevel\.le\.(\d+)\)EK=([0-9.]+)", s)
+        if m:
+            for lv in range(int(m.group(1)), int(m.group(2)) + 1):
+                cur.setdefault("EK_level", {})[lv] = float(m.group(3))
+            continue
+        m = re.match(r"if\(ilevel\.eq\.(\d+)\)EK=([0-9.]+)", s)
+        if m:
+            cur.setdefault("EK_level", {})[int(m.group(1))] = float(m.group(2))
+            continue
+        m = re.match(r"if\((.*)\)itrans02=(\d)", s)
+        if m:
+            for lv in re.findall(r"ilevel\.eq\.(\d+)", m.group(1)):
+                cur["spin"][int(lv)] = int(m.group(2))
+            continue
+        m = re.match(r"itrans02=(\d)", s)
+        if m:
+            cur["spin"][0] = int(m.group(1))
+    # keep only genuine double-beta blocks
+    for v in table.values():
+        if v["q4b"] is not None and "Qbb" not in v["q4b"]:
+            v["q4b"] = None
+    return {k: v for k, v in table.items() if "Qbb" in v}
+
+
+def readme_text():
+    return open(os.path.join(REPO, "README.rst"), encoding="utf-8").read()
+
+
+def _readme_section(title):
+    t = readme_text()
+    i = t.index(title)
+    rest = t[i + len(title):]
+    m = re.search(r"\n[^\n]+\n[-=~]{6,}\n", rest[10:])
+    return rest[: (m.start() + 10) if m else len(rest)]
+
+
+def readme_bullets(title):
+    """[(name, annotation)] from a README appendix bullet list such as ``* ``Bi214`` (for ``Bi214+At214``)``."""
+    out = []
+    for ln in _readme_section(title).split("\n"):
+        m = re.match(r"^\*\s+``([^`]+)``\s*(.*)$", ln.strip())
+        if m:
+            ann = re.findall(r"``([^`]+)``", m.group(2))
+            out.append((m.group(1), ann[0] if ann and "for" in m.group(2) else None))
+    return out
+
+
+def readme_dbd_levels():
+    """{isotope: [(index, spin_text, MeV)]} from 'List of daughter nucleus excited states'."""
+    sec = _readme_section("List of daughter nucleus excited states in double beta decay")
+    out = {}
+    cur = None
+    for ln in sec.split("\n"):
+        m = re.match(r"^\*\s+``(\w+)``\s*->", ln.strip())
+        if m:
+            cur = out.setdefault(m.group(1), [])
+            continue
+        m = re.match(r"^\s*(\d+)\.\s+(\S+)\s*(?:\([^)]*\))?\s*[{(]([0-9.]+)\s*MeV[})]", ln)
+        if m and cur is not None:
+            cur.append((int(m.group(1)), m.group(2), float(m.group(3))))
+    return out
